@@ -1,0 +1,270 @@
+/*-
+  verif.c -- verification hooks (compiled only with -DKJN_LBZIP2_VERIF)
+
+  This file is not part of the regular build.  It provides seeded schedule
+  perturbation, decompression granule overrides and an in-memory event trace
+  for external runtime monitors.  Everything is off unless the corresponding
+  LBZIP2_VERIF_* environment variable is set.
+*/
+
+#ifdef KJN_LBZIP2_VERIF
+
+#include "common.h"
+#include "verif.h"
+
+#include <fcntl.h>
+#include <pthread.h>
+#include <sched.h>
+#include <stdio.h>
+#include <string.h>
+#include <time.h>
+#include <unistd.h>
+
+
+/* ---- H1: schedule perturbation ---------------------------------------- */
+
+enum { M_OFF, M_JITTER, M_STRAGGLER, M_SLOWTHREAD };
+
+static int sched_mode = M_OFF;
+static uint64_t sched_seed;
+static unsigned sched_arg;
+static unsigned thread_counter;
+static unsigned compute_counter;
+
+static __thread uint64_t rng_state;
+static __thread unsigned thread_ord;
+static __thread int thread_known;
+
+static uint64_t
+mix(uint64_t x)
+{
+  x ^= x >> 33;
+  x *= 0xff51afd7ed558ccdULL;
+  x ^= x >> 33;
+  x *= 0xc4ceb9fe1a85ec53ULL;
+  x ^= x >> 33;
+  return x;
+}
+
+static uint64_t
+rnd(void)
+{
+  uint64_t x = rng_state;
+
+  x ^= x << 13;
+  x ^= x >> 7;
+  x ^= x << 17;
+  return rng_state = x;
+}
+
+static void
+nap(unsigned usec)
+{
+  struct timespec ts;
+
+  ts.tv_sec = usec / 1000000u;
+  ts.tv_nsec = (long)(usec % 1000000u) * 1000L;
+  while (nanosleep(&ts, &ts) == -1 && errno == EINTR)
+    ;
+}
+
+void
+verif_yield(int site, uint64_t key)
+{
+  int saved_errno;
+
+  (void)key;
+  if (sched_mode == M_OFF)
+    return;
+  saved_errno = errno;
+
+  if (!thread_known) {
+    thread_known = 1;
+    thread_ord = __atomic_fetch_add(&thread_counter, 1u, __ATOMIC_RELAXED);
+    rng_state = mix(sched_seed + 0x9e3779b97f4a7c15ULL * (thread_ord + 1)) | 1;
+  }
+
+  switch (sched_mode) {
+  case M_JITTER:
+    {
+      unsigned r = rnd() % 64u;
+
+      if (r < 6)
+        sched_yield();
+      else if (r < 8)
+        nap(1 + rnd() % 300u);
+    }
+    break;
+
+  case M_STRAGGLER:
+    if (site == VS_COMPUTE_BEGIN) {
+      unsigned n = __atomic_fetch_add(&compute_counter, 1u, __ATOMIC_RELAXED);
+      unsigned period = 3 + sched_seed % 5;
+
+      if (mix(sched_seed ^ n) % period == 0)
+        nap(1000u * (sched_arg ? sched_arg : 40u));
+    }
+    break;
+
+  case M_SLOWTHREAD:
+    if (thread_ord == sched_seed % (thread_counter ? thread_counter : 1)) {
+      if (rnd() % 4u == 0)
+        nap(1 + rnd() % 200u);
+      else
+        sched_yield();
+    }
+    break;
+  }
+
+  errno = saved_errno;
+}
+
+
+/* ---- H2: decompression granule override -------------------------------- */
+
+void
+verif_granules(size_t *in, size_t *out)
+{
+  const char *s;
+
+  s = getenv("LBZIP2_VERIF_IN_GRANUL");
+  if (s != NULL) {
+    unsigned long v = strtoul(s, NULL, 10);
+
+    if (v >= 4 && v % 4 == 0)
+      *in = v;
+  }
+  s = getenv("LBZIP2_VERIF_OUT_GRANUL");
+  if (s != NULL) {
+    unsigned long v = strtoul(s, NULL, 10);
+
+    if (v >= 1)
+      *out = v;
+  }
+}
+
+
+/* ---- H6: event trace ---------------------------------------------------- */
+
+struct verif_rec {
+  uint64_t seq;
+  uint64_t tid_code;
+  uint64_t a, b, c;
+};
+
+#define TRACE_CAP (1u << 20)
+
+static const char *trace_path;
+static struct verif_rec *trace_buf;
+static size_t trace_len;
+static uint64_t trace_seq;
+static uint64_t trace_dropped;
+static pthread_mutex_t trace_mutex = PTHREAD_MUTEX_INITIALIZER;
+static unsigned trace_threads;
+static __thread unsigned trace_tid;
+static __thread int trace_tid_known;
+
+void
+verif_event(int code, uint64_t a, uint64_t b, uint64_t c)
+{
+  if (trace_path == NULL)
+    return;
+
+  if (pthread_mutex_lock(&trace_mutex) != 0)
+    abort();
+  if (!trace_tid_known) {
+    trace_tid_known = 1;
+    trace_tid = trace_threads++;
+  }
+  if (trace_len < TRACE_CAP) {
+    struct verif_rec *r = &trace_buf[trace_len++];
+
+    r->seq = trace_seq++;
+    r->tid_code = ((uint64_t)trace_tid << 8) | (unsigned)code;
+    r->a = a;
+    r->b = b;
+    r->c = c;
+  }
+  else {
+    trace_seq++;
+    trace_dropped++;
+  }
+  if (pthread_mutex_unlock(&trace_mutex) != 0)
+    abort();
+}
+
+/* Append buffered records to the trace file.  Uses only async-signal-safe
+   calls apart from the mutex, which is not taken when called from the
+   bail-out path of the main thread (other threads may be dead while holding
+   it; a torn last record is tolerated by the reader). */
+static void
+flush_records(void)
+{
+  int fd;
+  const char *p;
+  size_t left;
+
+  if (trace_path == NULL || trace_len == 0)
+    return;
+  fd = open(trace_path, O_WRONLY | O_CREAT | O_APPEND, 0600);
+  if (fd == -1)
+    return;
+  p = (const char *)trace_buf;
+  left = trace_len * sizeof(*trace_buf);
+  while (left > 0) {
+    ssize_t wr = write(fd, p, left);
+
+    if (wr <= 0)
+      break;
+    p += wr;
+    left -= (size_t)wr;
+  }
+  (void)close(fd);
+  trace_len = 0;
+}
+
+void
+verif_flush(void)
+{
+  int saved_errno = errno;
+
+  flush_records();
+  errno = saved_errno;
+}
+
+
+void
+verif_init(void)
+{
+  const char *s;
+
+  s = getenv("LBZIP2_VERIF_SCHED");
+  if (s != NULL) {
+    char mode[32];
+    unsigned long long seed = 0;
+    unsigned arg = 0;
+
+    mode[0] = '\0';
+    if (sscanf(s, "%llu:%31[a-z]:%u", &seed, mode, &arg) >= 2) {
+      sched_seed = seed;
+      sched_arg = arg;
+      if (strcmp(mode, "jitter") == 0)
+        sched_mode = M_JITTER;
+      else if (strcmp(mode, "straggler") == 0)
+        sched_mode = M_STRAGGLER;
+      else if (strcmp(mode, "slowthread") == 0)
+        sched_mode = M_SLOWTHREAD;
+    }
+  }
+
+  s = getenv("LBZIP2_VERIF_TRACE");
+  if (s != NULL && *s != '\0') {
+    trace_buf = malloc(TRACE_CAP * sizeof(*trace_buf));
+    if (trace_buf != NULL)
+      trace_path = s;
+  }
+}
+
+#endif /* KJN_LBZIP2_VERIF */
+
+typedef int verif_translation_unit_is_not_empty;
